@@ -5,7 +5,7 @@ import random
 from typing import Any, Iterable
 
 from ..runner import CheckBase, Violation
-from .common import CAUSES, gen_session, pick, with_cause
+from .common import make_rejecting, CAUSES, gen_session, pick, with_cause
 from .hist import HARNESS_STEPS, INTERNAL_HANDLER_TYPES, Index
 
 SWEEP_CAUSES = CAUSES
@@ -75,9 +75,20 @@ def release_oracle(ix: Index, notes: Any = None, slow_close: bool = False) -> li
         elif op.t1 > tc + stall + 1e-9:
             out.append(Violation("blocked-after-close", op.do, f"{op.actor}[{op.i}] {op.do} was running on {c} when it closed at t={tc:.6f} but returned only at t={op.t1:.6f}"))
     for seq, conn, timers, turn, t in ix.post_close_timers:
+        T = ix.closed_seq.get(conn)
+        # the timeout timer of a Bluetooth connect that was in flight when the connection closed is told apart from the
+        # request timers of the connection (same callback name): one per such call
+        n_ble = sum(1 for op in ix.ops if op.do == "ble.connect" and op.conn == conn and T is not None and op.s0 < T and (op.s1 is None or T < op.s1))
+        first = True
         for tm in timers:
-            out.append(Violation("timer-armed-after-close", tm["cb"].rsplit(".", 1)[-1], f"{conn}: library timer {tm['cb']} (due in {tm['in']}s) still armed a few event-loop turns after the connection closed"))
-            break
+            name = tm["cb"].rsplit(".", 1)[-1]
+            if name == "handle_timeout" and n_ble > 0:
+                n_ble -= 1
+                out.append(Violation("timer-armed-after-close", "handle_timeout:ble.connect", f"{conn}: the timeout timer of a bluetooth_device_connect() call (due in {tm['in']}s) still armed a few event-loop turns after the connection closed"))
+                continue
+            if first:
+                first = False
+                out.append(Violation("timer-armed-after-close", name, f"{conn}: library timer {tm['cb']} (due in {tm['in']}s) still armed a few event-loop turns after the connection closed"))
     for seq, d in ix.unclosed_transports:
         out.append(Violation("transport-unclosed", "", f"transport {d['tr']} garbage-collected without close()"))
     return out
@@ -90,14 +101,18 @@ def gen_c08_base(rng: random.Random) -> dict:
         n = rng.randint(1, 3)
         steps = []
         base["device"].setdefault("replies", {})
-        kinds = rng.sample(["device_info", "list_entities", "raw"], k=min(n, 3))
+        kinds = rng.sample(["device_info", "list_entities", "raw", "ble_connect"], k=min(n, 3))
         for k in kinds:
             if k == "device_info":
                 base["device"]["replies"]["DeviceInfoRequest"] = ["silent"]
             elif k == "list_entities":
                 base["device"]["replies"]["ListEntitiesRequest"] = [{"msgs": [["ListEntitiesSwitchResponse", {"key": 1}]]}]
         for j, k in enumerate(kinds):
-            if k == "raw":
+            if k == "ble_connect":
+                # a Bluetooth connect through the proxy that the device never reports back on
+                base["device"]["replies"]["BluetoothDeviceRequest"] = ["silent"]
+                st = {"do": "ble.connect", "address": 0xAABBCC000001 + j, "timeout": pick(rng, [5.0, 30.0]), "disconnect_timeout": pick(rng, [2.0, 20.0])}
+            elif k == "raw":
                 st = {"do": "request", "msgs": [["SubscribeLogsRequest", {}]], "types": ["SubscribeLogsResponse"], "stop": {"p": "never"}, "timeout": pick(rng, [3.0, 50.0])}
             else:
                 st = {"do": k}
@@ -118,6 +133,9 @@ class C08(CheckBase):
         from ..engine import run_scenario
 
         base = gen_c08_base(rng)
+        if idx % 4 == 3:
+            # the library closes on its own verdict (name, version, password, key, framing); other causes fall around it
+            make_rejecting(base, rng)
         yield base
         T = run_scenario(base).turns
         causes = SWEEP_CAUSES if tier == "thorough" else rng.sample(SWEEP_CAUSES, 6)
